@@ -30,7 +30,10 @@ Record R (s : sys) (a : Vote.sys) : Prop := {
   R_nodes : forall i, i < n_nodes cfg -> Vote.nodes a (N.to_nat i) = absn (nth_node (nodes s) i);
   R_msgs : forall e m, In e (pool s) -> In m (absm e) -> In m (Vote.msgs a);
   R_ids : forall src dst m, In (src, dst, m) (pool s) -> src < n_nodes cfg /\ dst < n_nodes cfg;
-  R_rv : forall src dst t c x y, In (src, dst, RV t c x y) (pool s) -> src = c
+  R_rv : forall src dst t c x y, In (src, dst, RV t c x y) (pool s) -> src = c;
+  R_back : forall t g v d, In (Vote.RVR t g v d) (Vote.msgs a) ->
+             exists tt voter src dst, In (src, dst, RVR tt g voter) (pool s) /\
+               N.to_nat tt = t /\ N.to_nat src = v /\ N.to_nat dst = d
 }.
 
 (* ---------- list plumbing ---------- *)
@@ -60,9 +63,11 @@ Lemma R_upd s a i x out a' :
   (forall d m0 m, In (d, m0) out -> In m (absm (i, d, m0)) -> In m (Vote.msgs a')) ->
   (forall d m0, In (d, m0) out -> d < n_nodes cfg) ->
   (forall d t c x0 y, In (d, RV t c x0 y) out -> i = c) ->
+  (forall t g v d, In (Vote.RVR t g v d) (Vote.msgs a') -> In (Vote.RVR t g v d) (Vote.msgs a) \/
+     exists tt voter dd, In (dd, RVR tt g voter) out /\ N.to_nat tt = t /\ N.to_nat i = v /\ N.to_nat dd = d) ->
   R (upd_node s i x out) a'.
 Proof.
-  intros [RL RN RM RI RRV] Hi Hn Hm Ho Hd Hrv.
+  intros [RL RN RM RI RRV RB] Hi Hn Hm Ho Hd Hrv Hback.
   assert (Hlen : (N.to_nat i < length (nodes s))%nat) by (rewrite RL; unfold n; lia).
   constructor; unfold upd_node; cbn [nodes pool].
   - rewrite set_nth_len. exact RL.
@@ -78,15 +83,21 @@ Proof.
   - intros src dst t c x0 y He. apply in_app_or in He. destruct He as [He|He]; [eapply RRV; eauto|].
     apply in_map_iff in He. destruct He as [[d m0] [E Hd0]]. cbn [fst snd] in E. injection E as E1 E2 E3. subst.
     eapply Hrv; eauto.
+  - intros t g v d Hin. destruct (Hback _ _ _ _ Hin) as [Hold|[tt [voter [dd [Ho' [E1 [E2 E3]]]]]]].
+    + destruct (RB _ _ _ _ Hold) as [tt [voter [src [dst [Hp E]]]]]. exists tt, voter, src, dst.
+      split; [apply in_or_app; left; exact Hp|exact E].
+    + exists tt, voter, i, dd. split; [|auto]. apply in_or_app. right. apply in_map_iff.
+      exists (dd, RVR tt g voter). split; [reflexivity|exact Ho'].
 Qed.
 
 Lemma R_upd0 s a i x a' :
   R s a -> i < n_nodes cfg ->
   (forall j, Vote.nodes a' j = Vote.upd (Vote.nodes a) (N.to_nat i) (absn x) j) ->
   (forall m, In m (Vote.msgs a) -> In m (Vote.msgs a')) ->
+  (forall m, In m (Vote.msgs a') -> In m (Vote.msgs a)) ->
   R (upd_node s i x []) a'.
 Proof.
-  intros HR Hi Hn Hm. eapply R_upd; eauto.
+  intros HR Hi Hn Hm Hm'. eapply R_upd; eauto.
   - intros d m0 m [].
   - intros d m0 [].
   - intros d t c x0 y [].
@@ -162,6 +173,8 @@ Proof.
       rewrite Hx in E. cbn in E. lia.
     + intros d m0 Hin. apply (Ho _ _ Hin).
     + intros d t c x0 y Hin. destruct (Ho _ _ Hin) as [_ [lli [llt E]]]. injection E as _ <- _ _. reflexivity.
+    + intros t g v d Hin. left. apply in_app_or in Hin. destruct Hin as [Hin|Hin]; [|exact Hin].
+      unfold extra in Hin. apply in_map_iff in Hin. destruct Hin as [? [E _]]. discriminate.
 Qed.
 
 Lemma absn_old s a i : R s a -> i < n_nodes cfg -> old a i = absn (nth_node (nodes s) i).
@@ -288,6 +301,8 @@ Proof.
         apply in_or_app. left. unfold extra. apply in_map_iff. exists (d, RV (term nd) i lli llt). split; [reflexivity|exact Hin].
       * intros d m0 Hin. apply (rv_msgs_ok _ _ _ _ Hin).
       * intros d t c x0 y Hin. destruct (rv_msgs_ok _ _ _ _ Hin) as [_ [lli [llt E]]]. injection E as _ <- _ _. reflexivity.
+      * intros t g v d Hin. left. apply in_app_or in Hin. destruct Hin as [Hin|Hin]; [|exact Hin].
+        unfold extra in Hin. apply in_map_iff in Hin. destruct Hin as [? [E _]]. discriminate.
   - (* GHeartbeat: AppendEntries are invisible *)
     unfold valid_id. destruct (N.ltb_spec i (n_nodes cfg)) as [Hi|]; cbn [fst]; [|exact Stay].
     exists a. split; [left; reflexivity|]. apply R_stutter; auto.
@@ -323,6 +338,8 @@ Proof.
         rewrite Htt. reflexivity.
       * intros d m0 [E|[]]. injection E as <- _. exact Hsrc.
       * intros d t0 c x0 y [E|[]]. injection E as _ E. subst r. discriminate.
+      * intros t0 g0 v0 d0 [E|Hin]; [|left; exact Hin]. right. injection E as E1 E2 E3 E4.
+        exists tt, dst, src. split; [left; subst r; rewrite E2; reflexivity|]. repeat split; congruence.
     + (* RequestVoteResponse *)
       apply sim_rvr; auto. eapply (R_msgs _ _ HR); [exact Ek|]. cbn. left. reflexivity.
     + (* PreVote: no state change *)
@@ -404,6 +421,7 @@ Proof.
   - intros e m [].
   - intros ? ? ? [].
   - intros ? ? ? ? ? ? [].
+  - intros ? ? ? ? [].
 Qed.
 
 Lemma run_from_app s o1 o2 : run_from s (o1 ++ o2) = run_from (run_from s o1) o2.
